@@ -1,7 +1,7 @@
 (* StaticFacts.v - the per-module callback is "static or never cached" (hypothesis cb_ok of
    HistFacts) for the DWARF module kinds, and the instantiation of C06 / C20 for both
    architectures. *)
-From FH Require Import Consts Word X86 A64 DwarfRow Cfi Unwinder X86Dwarf A64Dwarf DwarfCb X86Unw A64Unw
+From FH Require Import Consts Word X86 A64 DwarfRow Cfi Unwinder X86Dwarf A64Dwarf DwarfCb Pe X86Unw A64Unw
   WordFacts HistFacts.
 From Coq Require Import Lia ZifyBool ZifyN.
 Open Scope N_scope.
@@ -94,10 +94,169 @@ Lemma row_step_x86_ok rw first rg m :
   end.
 Proof. unfold row_step_x86. destruct (translate_x86 rw); [reflexivity | apply generic_x86_dyn]. Qed.
 
+(* PE: which of the three classes a (function table, address, first?) falls into *)
+Definition pe_static (pe : pe_data) (address : N) (first : bool) : sclass rule :=
+  match pe_lookup (pe_funcs pe) address None with
+  | None => SRule _ JustReturn
+  | Some f =>
+    match ui_at (pe_uinfos pe) (rt_uinfo f) with
+    | UiMissing | UiBad => SErr _
+    | UiOk u0 =>
+      let epi :=
+        if first then
+          if rt_end f <? address then Some (SDyn rule)
+          else
+            match pe_text pe with
+            | None => Some (SErr _)
+            | Some (lo, hi, bytes) =>
+              if (lo <=? address) && (address <? hi) then
+                let off := N.to_nat (address - lo) in
+                if Nat.ltb (length bytes) off then Some (SDyn _)
+                else
+                  let rest := skipn off bytes in
+                  let n := N.to_nat (rt_end f - address) in
+                  if Nat.ltb (length rest) n then Some (SDyn _)
+                  else
+                    match eparse_sequence (firstn n rest) (ui_fpreg u0) with
+                    | None => None
+                    | Some insns =>
+                      match rule_for_sequence (map oop_of_einsn insns) with
+                      | Some (Ok r) => Some (SRule _ r)
+                      | _ => Some (SDyn _)
+                      end
+                    end
+              else Some (SErr _)
+            end
+        else None in
+      match epi with
+      | Some c => c
+      | None =>
+        match chain_infos (S (length (pe_uinfos pe))) pe u0 with
+        | Ok None => SErr _
+        | Ok (Some infos) =>
+          if address <? rt_begin f then SDyn _
+          else match rule_for_sequence (map oop_of_uop (all_ops (address - rt_begin f) infos)) with
+               | Some (Ok r) => SRule _ r
+               | _ => SDyn _
+               end
+        | _ => SDyn _
+        end
+      end
+    end
+  end.
+
+Lemma final_pop_dyn c rg m : match final_pop c rg m with CbRule _ | CbErr _ => False | _ => True end.
+Proof.
+  unfold final_pop. destruct (m (sp rg)); [|exact I].
+  destruct (sp rg + 8 <? W64); [exact I|]. destruct c; exact I.
+Qed.
+
+Lemma pe_step_ok pe address first rg m :
+  match pe_static pe address first with
+  | SRule _ r => fst (pe_step true pe address first rg m) = CbRule r
+  | SErr _ => fst (pe_step true pe address first rg m) = CbErr rg
+  | SDyn _ => match fst (pe_step true pe address first rg m) with CbRule _ | CbErr _ => False | _ => True end
+  end.
+Proof.
+  unfold pe_static, pe_step.
+  destruct (pe_lookup (pe_funcs pe) address None) as [f|]; [|reflexivity].
+  destruct (ui_at (pe_uinfos pe) (rt_uinfo f)) as [u0| |]; try reflexivity.
+  assert (TAIL :
+    match
+      match chain_infos (S (length (pe_uinfos pe))) pe u0 with
+      | Ok None => SErr rule
+      | Ok (Some infos) =>
+        if address <? rt_begin f then SDyn rule
+        else match rule_for_sequence (map oop_of_uop (all_ops (address - rt_begin f) infos)) with
+             | Some (Ok r) => SRule rule r
+             | _ => SDyn rule
+             end
+      | _ => SDyn rule
+      end
+    with
+    | SRule _ r =>
+      fst (match chain_infos (S (length (pe_uinfos pe))) pe u0 with
+           | Hang => (CbHang, pe_eff_alloc)
+           | Ok None => (CbErr rg, pe_eff_alloc)
+           | Ok (Some infos) =>
+             if address <? rt_begin f then (CbPanic S_pe_own_sub, pe_eff_alloc)
+             else
+               match rule_for_sequence (map oop_of_uop (all_ops (address - rt_begin f) infos)) with
+               | Some (Ok r) => (CbRule r, pe_eff_alloc)
+               | Some (Panic s) => (CbPanic s, pe_eff_alloc)
+               | Some _ => (CbHang, pe_eff_alloc)
+               | None =>
+                 match run_ops_pe u0 (all_ops (address - rt_begin f) infos) rg m with
+                 | OpCont rg' => (final_pop true rg' m, pe_eff_alloc)
+                 | OpBreak ra rg' => (CbUncacheable ra rg', pe_eff_alloc)
+                 | OpNoStack rg' => (CbErrV rg', pe_eff_alloc)
+                 | OpPanic => (CbPanic S_pe_dep, pe_eff_alloc)
+                 end
+               end
+           | _ => (CbHang, pe_eff_alloc)
+           end) = CbRule r
+    | SErr _ => fst (match chain_infos (S (length (pe_uinfos pe))) pe u0 with
+           | Hang => (CbHang, pe_eff_alloc)
+           | Ok None => (CbErr rg, pe_eff_alloc)
+           | Ok (Some infos) =>
+             if address <? rt_begin f then (CbPanic S_pe_own_sub, pe_eff_alloc)
+             else
+               match rule_for_sequence (map oop_of_uop (all_ops (address - rt_begin f) infos)) with
+               | Some (Ok r) => (CbRule r, pe_eff_alloc)
+               | Some (Panic s) => (CbPanic s, pe_eff_alloc)
+               | Some _ => (CbHang, pe_eff_alloc)
+               | None =>
+                 match run_ops_pe u0 (all_ops (address - rt_begin f) infos) rg m with
+                 | OpCont rg' => (final_pop true rg' m, pe_eff_alloc)
+                 | OpBreak ra rg' => (CbUncacheable ra rg', pe_eff_alloc)
+                 | OpNoStack rg' => (CbErrV rg', pe_eff_alloc)
+                 | OpPanic => (CbPanic S_pe_dep, pe_eff_alloc)
+                 end
+               end
+           | _ => (CbHang, pe_eff_alloc)
+           end) = CbErr rg
+    | SDyn _ => match fst (match chain_infos (S (length (pe_uinfos pe))) pe u0 with
+           | Hang => (CbHang, pe_eff_alloc)
+           | Ok None => (CbErr rg, pe_eff_alloc)
+           | Ok (Some infos) =>
+             if address <? rt_begin f then (CbPanic S_pe_own_sub, pe_eff_alloc)
+             else
+               match rule_for_sequence (map oop_of_uop (all_ops (address - rt_begin f) infos)) with
+               | Some (Ok r) => (CbRule r, pe_eff_alloc)
+               | Some (Panic s) => (CbPanic s, pe_eff_alloc)
+               | Some _ => (CbHang, pe_eff_alloc)
+               | None =>
+                 match run_ops_pe u0 (all_ops (address - rt_begin f) infos) rg m with
+                 | OpCont rg' => (final_pop true rg' m, pe_eff_alloc)
+                 | OpBreak ra rg' => (CbUncacheable ra rg', pe_eff_alloc)
+                 | OpNoStack rg' => (CbErrV rg', pe_eff_alloc)
+                 | OpPanic => (CbPanic S_pe_dep, pe_eff_alloc)
+                 end
+               end
+           | _ => (CbHang, pe_eff_alloc)
+           end) with CbRule _ | CbErr _ => False | _ => True end
+    end).
+  { destruct (chain_infos (S (length (pe_uinfos pe))) pe u0) as [[infos|]|e|s|]; cbn; try exact I; try reflexivity.
+    destruct (address <? rt_begin f); [exact I|].
+    destruct (rule_for_sequence (map oop_of_uop (all_ops (address - rt_begin f) infos))) as [[r|e|s|]|]; cbn; try exact I; try reflexivity.
+    destruct (run_ops_pe u0 (all_ops (address - rt_begin f) infos) rg m); cbn; try exact I.
+    apply final_pop_dyn. }
+  destruct first; [|exact TAIL].
+  destruct (rt_end f <? address); [exact I|].
+  destruct (pe_text pe) as [[[lo hi] bytes]|]; [|reflexivity].
+  destruct ((lo <=? address) && (address <? hi)); [|reflexivity].
+  destruct (Nat.ltb (length bytes) (N.to_nat (address - lo))); [exact I|].
+  destruct (Nat.ltb (length (skipn (N.to_nat (address - lo)) bytes)) (N.to_nat (rt_end f - address))); [exact I|].
+  destruct (eparse_sequence _ (ui_fpreg u0)) as [insns|]; [|exact TAIL].
+  destruct (rule_for_sequence (map oop_of_einsn insns)) as [[r|e|s|]|]; cbn; try exact I; try reflexivity.
+  destruct (run_epilog true u0 insns rg m); cbn; try exact I. apply final_pop_dyn.
+Qed.
+
 Definition cb_static_x86 (md : xmodule) (first : bool) (rel : N) : sclass rule :=
   match mdat md with
   | MNone => SErr _
   | MDwarf p sec => dwarf_static rule translate_x86 uncovered_rule_x86 p sec (base_svma md) rel
+  | MPe pe => pe_static pe rel first
   end.
 
 Lemma cb_x86_ok md first rel rg m :
@@ -107,7 +266,7 @@ Lemma cb_x86_ok md first rel rg m :
   | SDyn _ => match fst (cb_x86 md first rel rg m) with CbRule _ | CbErr _ => False | _ => True end
   end.
 Proof.
-  unfold cb_static_x86, cb_x86. destruct (mdat md); [reflexivity|].
+  unfold cb_static_x86, cb_x86. destruct (mdat md); [reflexivity | | apply pe_step_ok].
   apply cb_dwarf_ok. apply row_step_x86_ok.
 Qed.
 
@@ -133,6 +292,7 @@ Definition cb_static_a64 (md : amodule) (first : bool) (rel : N) : sclass arule 
   match mdat md with
   | AMNone => SErr _
   | AMDwarf p sec => dwarf_static arule translate_a64 uncovered_rule_a64 p sec (base_svma md) rel
+  | AMPe => SErr _
   end.
 
 Lemma cb_a64_ok md first rel rg m :
@@ -142,6 +302,6 @@ Lemma cb_a64_ok md first rel rg m :
   | SDyn _ => match fst (cb_a64 md first rel rg m) with CbRule _ | CbErr _ => False | _ => True end
   end.
 Proof.
-  unfold cb_static_a64, cb_a64. destruct (mdat md); [reflexivity|].
+  unfold cb_static_a64, cb_a64. destruct (mdat md); [reflexivity| |reflexivity].
   apply cb_dwarf_ok. apply row_step_a64_ok.
 Qed.
